@@ -393,7 +393,10 @@ def q_missed_breach(o, tier):
         if m:
             return 'cache.' + m.group(1)
         return None
-    sk = SK.Skeletons(funcs, idx, teos_lock_name, alpha)
+    # only the cache lock is kept: mutual exclusion on it is what the property rests on; dropping the other locks only
+    # adds interleavings (sound for `holds`; a sat answer would be re-examined with all locks)
+    sk = SK.Skeletons(funcs, idx, teos_lock_name, alpha,
+                      event_filter=lambda ev: ev[0] == 'call' or (ev[0] in ('acq', 'rel') and ev[1] == 'locator_cache'))
     fa = [n for n in funcs if re.match(r'^watcher::<impl at .*?>::add_appointment$', n)]
     fb = [n for n in funcs if re.match(r'^watcher::<impl at .*?>::filtered_block_connected$', n)]
     if len(fa) != 1 or len(fb) != 1:
@@ -432,11 +435,264 @@ def q_missed_breach(o, tier):
             'functions': sorted(short(x) for x in sk.functions_seen)}
 
 
+def q_cv_waiter(o, tier):
+    """C12.M2: a thread that can block in Condvar::wait (Carrier::hang_until_bitcoind_reachable after a transport error)
+    must have a waker in *another* thread. Threads: the chain-monitor thread (poll_best_tip, which hands blocks to the three
+    Listen implementations through lightning-block-sync's SpvClient and is the only caller of notify_all) and one API
+    handler thread per request. Query: exists a thread class with a reachable wait such that no other thread class notifies."""
+    funcs, idx, t_mir, err = load_mir('teos')
+    if funcs is None:
+        return {'verdict': 'inconclusive', 'reason': 'MIR dump failed'}
+    sk = SK.Skeletons(funcs, idx, teos_lock_name, lambda c: None, event_filter=lambda ev: ev[0] in ('wait', 'notify'))
+    api, chain_c, chain_d = teos_entries(funcs)
+    poll = [n for n in funcs if re.match(r'^chain_monitor::<impl at .*?>::poll_best_tip::\{closure#0\}$', n)]
+    if len(poll) != 1 or len(chain_c) != 3 or len(api) < 8:
+        return {'verdict': 'inconclusive', 'reason': 'entry points not found'}
+    keep = lambda ev: ev[0] in ('wait', 'notify')
+    classes = {'chain-monitor thread (poll_best_tip + listeners)': poll + chain_c + chain_d,
+               'API handler thread': api}
+    facts = {}
+    for cname, entries in classes.items():
+        waits, notifies = [], []
+        for e in entries:
+            tr = SK.project(sk.traces(e), keep)
+            if any(('wait', 'bitcoind_reachable') in t for t in tr):
+                waits.append(short(e))
+            if any(ev[0] == 'notify' for t in tr for ev in t):
+                notifies.append(short(e))
+        facts[cname] = (waits, notifies)
+    if sk.problems:
+        return {'verdict': 'inconclusive', 'reason': '; '.join(sk.problems[:3])}
+    names = list(classes)
+    # SMT: c = waiting class; bad iff waits(c) and for all c' != c: not notifies(c')
+    text = '(set-logic ALL)\n(declare-const c Int)\n'
+    text += '(define-fun waits ((c Int)) Bool (or %s))\n' % ' '.join(['false'] + ['(= c %d)' % i for i, n in enumerate(names) if facts[n][0]])
+    text += '(define-fun notifies ((c Int)) Bool (or %s))\n' % ' '.join(['false'] + ['(= c %d)' % i for i, n in enumerate(names) if facts[n][1]])
+    text += '(assert (and (>= c 0) (< c %d) (waits c)))\n' % len(names)
+    text += '(assert (forall ((d Int)) (=> (and (>= d 0) (< d %d) (not (= d c))) (not (notifies d)))))\n' % len(names)
+    text += '(check-sat)\n(get-value (c))\n'
+    v, out, dt = smt(text)
+    if v == 'inconclusive':
+        return {'verdict': 'inconclusive', 'reason': out[:300]}
+    if not any(f[0] for f in facts.values()) or not any(f[1] for f in facts.values()):
+        return {'verdict': 'inconclusive', 'reason': 'vacuous: no wait or no notify found in the MIR'}
+    failed = []
+    if v == 'sat':
+        c = int(re.search(r'\(c (\d+)\)', out).group(1))
+        failed.append({'description': 'condvar wait without a waker in another thread: %s' % names[c],
+                       'function': ', '.join(facts[names[c]][0][:4]),
+                       'schedule': ['a node RPC issued while a block is being processed fails with a transport error',
+                                    'Carrier::flag_bitcoind_unreachable; Carrier::hang_until_bitcoind_reachable waits on the condvar',
+                                    'the only notify_all is in poll_best_tip, i.e. in the caller of the waiting listener: nobody wakes the thread']})
+    return {'verdict': 'fails' if failed else 'holds', 'failed': failed, 'queries': 1, 'solver_s': dt,
+            'witness': {k: {'waits_in': v_[0][:6], 'notifies_in': v_[1][:6]} for k, v_ in facts.items()},
+            'functions': sorted(short(x) for x in sk.functions_seen)}
+
+
+# ------------------------------------------------------------------------------------------------------------ plugin model
+def call_short(c):
+    """`WTClient::add_pending_appointment`, `RequestError::is_connection`, `<UserId as PartialEq>::eq` -> short names."""
+    c = re.sub(r'::<.*?>', '', c)
+    m = re.match(r'^<(.+?) as (.+?)>::(\w+)$', c)
+    if m:
+        return '%s::%s' % (m.group(1).split('::')[-1], m.group(3))
+    parts = c.split('::')
+    return '::'.join(parts[-2:]) if len(parts) >= 2 else c
+
+
+def enum_paths(f, start, stop_call=None, limit=200000):
+    """All paths from block `start` to a `return` (or to a call matching `stop_call`), loops unrolled twice, unwind edges
+    not followed. A path is a tuple of facts: ('call', short name), ('branch', short name of the call whose result is
+    switched on, value), ('stmt', 'pending') for the coroutine's suspension assignment, ('ok',) / ('err',) for aggregate
+    construction of Result::Ok / Result::Err values."""
+    out = []
+    stack = [(start, (), {}, None)]
+    steps = 0
+    while stack:
+        bb, tr, vis, lastcall = stack.pop()
+        steps += 1
+        if steps > limit:
+            return None
+        if vis.get(bb, 0) >= 2:
+            continue
+        vis = dict(vis)
+        vis[bb] = vis.get(bb, 0) + 1
+        b = f.blocks[bb]
+        for s_ in b.stmts:
+            if re.match(r'^_0 = (?:std::task::)?Poll::<.*>::Pending;$', s_):
+                tr = tr + (('stmt', 'pending'),)
+            m = re.match(r'^_\d+ = (?:std::result::)?Result::<.*>::(Ok|Err)\(', s_)
+            if m:
+                tr = tr + (('mk', m.group(1)),)
+        t = b.term
+        k = t['kind']
+        if k == 'call':
+            name = call_short(t['callee'])
+            if stop_call and re.search(stop_call, t['callee']):
+                out.append(tr + (('stop', name),))
+                continue
+            tr = tr + (('call', name),)
+            if t['next']:
+                stack.append((t['next'], tr, vis, (name, t['dest'])))
+        elif k == 'switch':
+            op = t['operand'].split()[-1]
+            for v, tg in t['targets']:
+                tr2 = tr
+                if lastcall and lastcall[1] == op:
+                    tr2 = tr + (('branch', lastcall[0], v),)
+                stack.append((tg, tr2, vis, None))
+        elif k in ('goto', 'assert', 'drop', 'yield'):
+            stack.append((t['next'], tr, vis, lastcall if k == 'goto' else None))
+        elif k == 'return':
+            out.append(tr + (('return', ''),))
+    return sorted(set(out))
+
+
+def _exists(rows, pred, label):
+    """SMT: is there a row (path) satisfying pred? Returns (verdict, index, seconds)."""
+    text = '(set-logic ALL)\n(declare-const i Int)\n(define-fun bad ((i Int)) Bool\n'
+    for k, r in enumerate(rows):
+        text += ' (ite (= i %d) %s\n' % (k, 'true' if pred(r) else 'false')
+    text += ' false' + ')' * len(rows) + ')\n(assert (and (>= i 0) (< i %d)))\n(assert (bad i))\n(check-sat)\n(get-value (i))\n' % max(1, len(rows))
+    v, out, dt = smt(text)
+    i = None
+    if v == 'sat':
+        i = int(re.search(r'\(i (\d+)\)', out).group(1))
+    return v, i, dt, out
+
+
+RECORDERS = ('WTClient::add_appointment_receipt', 'WTClient::add_pending_appointment', 'WTClient::add_invalid_appointment',
+             'WTClient::flag_misbehaving_tower')
+
+
+def q_plugin_must_record(o, tier):
+    """C05.M1: in the commitment-revocation hook, for every tower, every way the request to that tower can end (and every
+    tower that is not contacted because of its status) records the appointment exactly once as accepted / pending /
+    invalid, or flags the tower as misbehaving; towers already known to misbehave are skipped."""
+    funcs, idx, t_mir, err = load_mir('watchtower-plugin', 'bin', 'watchtower-client')
+    if funcs is None:
+        return {'verdict': 'inconclusive', 'reason': 'MIR dump failed: %s' % (err or '')[-300:]}
+    f = funcs.get('on_commitment_revocation::{closure#0}')
+    if f is None:
+        return {'verdict': 'inconclusive', 'reason': 'on_commitment_revocation not found'}
+    poll = [b for b in f.blocks.values() if b.term['kind'] == 'call' and re.search(r'http::add_appointment\(\)\} as Future>::poll', b.term['callee'])]
+    reach = [b for b in f.blocks.values() if b.term['kind'] == 'call' and re.search(r'TowerStatus::is_reachable$', b.term['callee'])]
+    if len(poll) != 1 or len(reach) != 1:
+        return {'verdict': 'inconclusive', 'reason': 'anchor calls not found (poll=%d, is_reachable=%d)' % (len(poll), len(reach))}
+    stop = r'IntoIter<\(TowerId, NetAddr, TowerStatus\)> as Iterator>::next'
+    rows_a = enum_paths(f, poll[0].term['next'], stop)
+    rows_b = enum_paths(f, reach[0].id, stop)
+    if rows_a is None or rows_b is None:
+        return {'verdict': 'inconclusive', 'reason': 'path explosion'}
+    rows_a = [r for r in rows_a if ('stmt', 'pending') not in r]                       # request completed
+    rows_b = [r for r in rows_b if ('branch', 'TowerStatus::is_reachable', '0') in r]  # tower not contacted
+
+    def n_rec(r):
+        return sum(1 for e in r if e[0] == 'call' and e[1] in RECORDERS)
+    failed, queries, solver_s = [], 0, 0.0
+    if not rows_a or not rows_b or not any(n_rec(r) == 1 for r in rows_a):
+        return {'verdict': 'inconclusive', 'reason': 'vacuous: %d/%d paths' % (len(rows_a), len(rows_b))}
+    # (a) after the tower's reply
+    v, i, dt, out = _exists(rows_a, lambda r: n_rec(r) != 1 and not any(e == ('call', 'RequestError::is_connection') for e in r), 'a')
+    queries += 1
+    solver_s += dt
+    if v == 'inconclusive':
+        return {'verdict': 'inconclusive', 'reason': out[:200]}
+    if v == 'sat':
+        failed.append({'description': 'a tower reply can be handled without recording the appointment exactly once (accepted / pending / invalid / misbehaving)',
+                       'function': 'on_commitment_revocation', 'schedule': [list(e) for e in rows_a[i]]})
+    v, i, dt, out = _exists(rows_a, lambda r: n_rec(r) != 1 and any(e == ('call', 'RequestError::is_connection') for e in r), 'a2')
+    queries += 1
+    solver_s += dt
+    if v == 'sat':
+        failed.append({'description': 'a request error that is not a connection error leaves the appointment unrecorded',
+                       'function': 'on_commitment_revocation', 'schedule': [list(e) for e in rows_a[i]]})
+    # (b) towers that are not contacted: pending unless misbehaving
+    v, i, dt, out = _exists(rows_b, lambda r: n_rec(r) != (0 if any(e[0] == 'branch' and e[1] == 'TowerStatus::is_misbehaving' and e[2] != '0' for e in r) else 1), 'b')
+    queries += 1
+    solver_s += dt
+    if v == 'sat':
+        failed.append({'description': 'a tower that is not contacted (unreachable / subscription error) does not get the appointment as pending, or a misbehaving tower is still served',
+                       'function': 'on_commitment_revocation', 'schedule': [list(e) for e in rows_b[i]]})
+    return {'verdict': 'fails' if failed else 'holds', 'failed': failed, 'queries': queries, 'solver_s': solver_s,
+            'witness': {'paths_after_reply': len(rows_a), 'paths_not_contacted': len(rows_b),
+                        'sample': [list(e) for e in rows_a[0] if e[0] != 'stmt'][:12]},
+            'functions': ['watchtower-client::on_commitment_revocation']}
+
+
+def q_plugin_register_verify(o, tier):
+    """C14.M1: `register` stores a tower (WTClient::add_update_tower) only on paths on which RegistrationReceipt::verify
+    returned true."""
+    funcs, idx, t_mir, err = load_mir('watchtower-plugin', 'bin', 'watchtower-client')
+    if funcs is None:
+        return {'verdict': 'inconclusive', 'reason': 'MIR dump failed'}
+    f = funcs.get('register::{closure#0}')
+    if f is None:
+        return {'verdict': 'inconclusive', 'reason': 'register not found'}
+    rows = enum_paths(f, 'bb0', r'WTClient::add_update_tower$')
+    if rows is None:
+        return {'verdict': 'inconclusive', 'reason': 'path explosion'}
+    rows = [r for r in rows if r[-1][0] == 'stop']
+    if not rows:
+        return {'verdict': 'inconclusive', 'reason': 'vacuous: add_update_tower is not reachable'}
+    ok = lambda r: any(e[0] == 'branch' and e[1] == 'RegistrationReceipt::verify' and e[2] != '0' for e in r)
+    v, i, dt, out = _exists(rows, lambda r: not ok(r), 'reg')
+    if v == 'inconclusive':
+        return {'verdict': 'inconclusive', 'reason': out[:200]}
+    failed = []
+    if v == 'sat':
+        failed.append({'description': 'a registration receipt can be stored without its signature having been verified against the tower id',
+                       'function': 'watchtower-client::register', 'schedule': [list(e) for e in rows[i]][-12:]})
+    return {'verdict': 'fails' if failed else 'holds', 'failed': failed, 'queries': 1, 'solver_s': dt,
+            'witness': {'paths_to_add_update_tower': len(rows), 'sample': [list(e) for e in rows[0] if e[0] == 'branch']},
+            'functions': ['watchtower-client::register']}
+
+
+def q_plugin_send_appointment(o, tier):
+    """C14.M2: `send_appointment` yields Ok only on paths on which the id recovered from the tower's signature equals the
+    tower id; every other completed path yields an error. Witness for F12: the recovered key is unwrap()ed."""
+    funcs, idx, t_mir, err = load_mir('watchtower-plugin', 'lib')
+    if funcs is None:
+        return {'verdict': 'inconclusive', 'reason': 'MIR dump failed'}
+    name = [n for n in funcs if re.match(r'^(?:net::http::)?send_appointment::\{closure#0\}$', n)]
+    if len(name) != 1:
+        return {'verdict': 'inconclusive', 'reason': 'send_appointment not found'}
+    f = funcs[name[0]]
+    rows = enum_paths(f, 'bb0')
+    if rows is None:
+        return {'verdict': 'inconclusive', 'reason': 'path explosion'}
+    rows = [r for r in rows if ('stmt', 'pending') not in r]
+    oks = [r for r in rows if ('mk', 'Ok') in r and ('mk', 'Err') not in r]
+    if not oks:
+        return {'verdict': 'inconclusive', 'reason': 'vacuous: no Ok path found (%d paths)' % len(rows)}
+    good = lambda r: any(e[0] == 'branch' and e[1] in ('UserId::eq', 'TowerId::eq') and e[2] != '0' for e in r)
+    v, i, dt, out = _exists(oks, lambda r: not good(r), 'send')
+    if v == 'inconclusive':
+        return {'verdict': 'inconclusive', 'reason': out[:200]}
+    failed = []
+    if v == 'sat':
+        failed.append({'description': 'an appointment acknowledgement can be accepted without the recovered signer being compared with the tower id',
+                       'function': 'watchtower_plugin::net::http::send_appointment', 'schedule': [list(e) for e in oks[i]][-14:]})
+    # F12 witness: Result<PublicKey, _>::unwrap applied to the result of recover_pk
+    unwraps = [b for b in f.blocks.values() if b.term['kind'] == 'call' and re.search(r'Result::<(?:bitcoin::secp256k1::)?PublicKey, .*>::unwrap$', b.term['callee'])]
+    rec = [b for b in f.blocks.values() if b.term['kind'] == 'call' and re.search(r'(?:^|::)recover_pk$', b.term['callee'])]
+    if rec and unwraps and any(u.term['args'] and u.term['args'][0].split()[-1] == r_.term['dest'] for u in unwraps for r_ in rec):
+        failed.append({'description': 'the key recovered from the tower-supplied signature is unwrap()ed: a signature that does not decode panics the client',
+                       'function': 'watchtower_plugin::net::http::send_appointment', 'schedule': ['tower replies 200 with a signature string that is not valid zbase32 / not a recoverable signature', 'cryptography::recover_pk -> Err', 'Result::unwrap panics']})
+    return {'verdict': 'fails' if failed else 'holds', 'failed': failed, 'queries': 1, 'solver_s': dt,
+            'witness': {'ok_paths': len(oks), 'paths': len(rows), 'sample': [list(e) for e in oks[0] if e[0] in ('branch', 'mk')]},
+            'functions': ['watchtower_plugin::net::http::send_appointment']}
+
+
 QUERIES = {
     'lock_order': q_lock_order,
     'api_guard': q_api_guard,
     'poll_best_tip': q_poll_best_tip,
     'missed_breach': q_missed_breach,
+    'cv_waiter': q_cv_waiter,
+    'plugin_must_record': q_plugin_must_record,
+    'plugin_register_verify': q_plugin_register_verify,
+    'plugin_send_appointment': q_plugin_send_appointment,
 }
 
 
